@@ -29,6 +29,7 @@ def batch_inputs(ctx, env, name, B):
 
 def run(R, name, B):
     from jumanji.wrappers import AutoResetWrapper, VmapAutoResetWrapper, VmapWrapper
+    WC.set_mode(name)
     env = configs.make(name)
     ctx = Ctx(max_unroll=24)
     lanes, acts, pre, SB, AB = batch_inputs(ctx, env, name, B)
@@ -131,16 +132,17 @@ def run(R, name, B):
     R.sample({"config": name, "batch": B, "obligations": len(R.obl)})
 
 
-QUICK_ENVS = ["Knapsack", "Maze@3x3", "Snake", "Cleaner@3x3x1", "GraphColoring", "TSP", "SlidingTilePuzzle", "Connector", "Minesweeper", "CVRP",
-              "Tetris", "RubiksCube", "LevelBasedForaging", "JobShop", "Sudoku", "FlatPack", "Sokoban", "MultiCVRP", "Game2048"]
-THOROUGH_ENVS = ["RobotWarehouse", "BinPack@csv", "PacMan"]
+QUICK_ENVS = ["Knapsack", "Maze@3x3", "Snake", "Cleaner@3x3x1", "GraphColoring", "TSP", "SlidingTilePuzzle", "Connector", "Minesweeper", "CVRP", "JobShop"]
+# heavier equivalence queries (minutes each): thorough tier only
+THOROUGH_ENVS = ["Tetris", "RubiksCube", "LevelBasedForaging", "Sudoku", "FlatPack", "Sokoban", "MultiCVRP", "Game2048", "RobotWarehouse", "BinPack@csv"]
+JOBTIMEOUT = {"quick": 600, "thorough": 3600}
 
 
 def jobs(tier, seed):
     js = []
     for n in QUICK_ENVS + (THOROUGH_ENVS if tier == "thorough" else []):
         js.append((f"{n}/B=2", "checks.C14", "run", {"name": n, "B": 2}))
-    for n in (["Knapsack", "Snake", "Maze@3x3"] if tier == "quick" else QUICK_ENVS[:10]):
+    for n in (["Knapsack", "Maze@3x3"] if tier == "quick" else QUICK_ENVS):
         js.append((f"{n}/B=1", "checks.C14", "run", {"name": n, "B": 1}))
         js.append((f"{n}/B=3", "checks.C14", "run", {"name": n, "B": 3}))
     return js
